@@ -25,7 +25,11 @@ func propC13(t *rapid.T) {
 	if lv.Form == live.Frozen {
 		runtime.GC()
 	}
-	origValid := b.Validate() == nil
+	origValid := true
+	if err := b.Validate(); err != nil {
+		// (C09 holds on the unchanged tree: a bitmap made by public operations validates, and so must the view of its image)
+		fail("the bitmap to be frozen, made by public operations, fails Validate: %v", err)
+	}
 	size := int(b.GetFrozenSizeInBytes())
 	fr, err := b.Freeze()
 	if err != nil {
@@ -168,6 +172,15 @@ func propC13(t *rapid.T) {
 	if fr2, err := cl.Freeze(); err != nil || !bytes.Equal(fr2, fr) {
 		fail("Freeze(FrozenView(Freeze(b))) differs from Freeze(b) (err=%v)", err)
 	}
+	// the caller owns what Freeze returned: overwriting it must not influence a later Freeze
+	saved := append([]byte(nil), fr...)
+	for i := range fr {
+		fr[i] = 0xEE
+	}
+	if fr3, err := b.Freeze(); err != nil || !bytes.Equal(fr3, saved) {
+		fail("Freeze after the caller overwrote the result of an earlier Freeze gives other bytes (err=%v)", err)
+	}
+	copy(fr, saved)
 	runtime.KeepAlive(lv)
 	inst.Case("C13", len(kinds) >= 2, desc)
 	// "supports all read and (copying) write operations": one case in four, the library-written frozen
@@ -189,6 +202,7 @@ func TestC13(t *testing.T) { rapid.Check(t, propC13) }
 func TestRegressC13Extremes(t *testing.T) { extremes(t) }
 func TestRegressC05Extremes(t *testing.T) { extremes(t) }
 func TestRegressC06Extremes(t *testing.T) { extremes(t) }
+func TestRegressC10Extremes(t *testing.T) { extremes(t) }
 
 // extremes: the empty bitmap and 65536 chunks (with run chunks, i.e. the run cookie stores count-1 = 0xFFFF)
 func extremes(t *testing.T) {
